@@ -12,10 +12,8 @@ def step : Sexp → Option Sexp
     let h ← decHeap hp
     let roots ← decNats roots
     let f := 2 * h.size + 8
-    match roundtrip f h roots with
-    | .assertion => pure (list [atom "error", atom "assertion"])
-    | .attribute => pure (list [atom "error", atom "attribute"])
-    | .ok h1 cs => pure (list (atom "ok" :: ofBool h1.unres :: (roots.zip cs).map (snapRoot h1)))
+    let r := roundtrip f h roots
+    pure (list (atom "ok" :: ofBool r.1.unres :: (roots.zip r.2).map (snapRoot r.1)))
   | _ => none
 
 def main : IO Unit := driverMain step
